@@ -188,7 +188,7 @@ func (w *world) buildPlan(ck ctxKey, prev *plan) *plan {
 	th, tp := p.targetHash(), p.targetPrio()
 	modes := []int{3, 3, 3, 1}
 	reached := true // does the previous kind's plan reach its quorum (then the validator under test joins in)
-	ownPrevotes := !carry && cfg.clean() || !carry && len(p.props) > 0
+	ownPrevotes := !carry // at step 2 the validator prevotes the best proposal of THIS index
 	kinds := []ucon.VoteType{ucon.Prevote, ucon.Precommit}
 	if p.cert {
 		kinds = append(kinds, ucon.Certificate)
@@ -401,11 +401,13 @@ func (w *world) genByz(p *plan) *action {
 		return mk(s, "byz.future", "future context")
 	case 5: // credential of another step inside this kind of message
 		s := base(pick("wrongkind-signer"))
-		alts := []ucon.VoteType{ucon.Prevote, ucon.Precommit, ucon.NextIndex}
-		s.credKind = alts[c.Intn("cred-kind", len(alts))]
-		if s.credKind == kind {
-			s.credKind = alts[(c.Intn("cred-kind2", 2)+1+indexOf(alts, kind))%len(alts)]
+		var alts []ucon.VoteType
+		for _, k := range []ucon.VoteType{ucon.Prevote, ucon.Precommit, ucon.NextIndex} {
+			if k != kind {
+				alts = append(alts, k)
+			}
 		}
+		s.credKind = alts[c.Intn("cred-kind", len(alts))]
 		return mk(s, "byz.wrong-kind", "credential of "+kindName(s.credKind))
 	case 6: // more seats claimed than the sortition gives
 		s := base(pick("inflate-signer"))
@@ -416,13 +418,8 @@ func (w *world) genByz(p *plan) *action {
 			return nil
 		}
 		s := base(pick("mismatch-voter"))
-		for {
-			s.frameSigner = pick("mismatch-sender")
-			if s.frameSigner != s.signer {
-				break
-			}
+		if s.frameSigner = pick("mismatch-sender"); s.frameSigner == s.signer {
 			s.frameSigner = p.elig[(indexOfKey(p.elig, s.signer)+1)%len(p.elig)]
-			break
 		}
 		return mk(s, "byz.sender-mismatch", "frame signed by "+s.frameSigner.Name())
 	case 8: // valid vote for a block nobody proposed to this node
@@ -455,15 +452,6 @@ func (w *world) genByz(p *plan) *action {
 		s.tsAhead = 3600
 		return mk(s, "byz.future-timestamp", "time stamp +1h")
 	}
-}
-
-func indexOf(l []ucon.VoteType, k ucon.VoteType) int {
-	for i, x := range l {
-		if x == k {
-			return i
-		}
-	}
-	return 0
 }
 
 func indexOfKey(l []*chainkit.ValKey, k *chainkit.ValKey) int {
